@@ -3,6 +3,8 @@
 # kept in /verif/benign/<name>/ (patch.diff, demo.py, meta.json; written by independent sub-agents that saw only a property
 # text). Every check must exit 0. The patches apply to the commit in benign/BASE (older than the D15 fix, hence
 # VERIF_PRE_D15=1 and no corpus: the corpus holds the D15 regression case, which that base rightly fails).
+# NOTE: the bases are older than the D15/D16/D17 repairs, so what those defects cause is rightly reported on these trees too
+# (C09 `refused-valid-covariance:gate` = D16 on every python.py patch of the first round); that is not a false alarm.
 #   primary: the check of the property the refactoring was written against (+ demo + pinned baseline)
 #   related: every check anchored in one of the files the patch touches
 cd "$(dirname "$0")/.."
@@ -33,7 +35,8 @@ for p in $LIST; do
   git -C /repo worktree add -q --detach $W/repo $BASE || exit 2
   if ! git -C $W/repo apply $(readlink -f $d/patch.diff); then echo "$p PATCH DOES NOT APPLY"; else
     if [ $PASS = primary ]; then
-      ( cd $W/repo && PYTHONPATH=$W/repo/py MPLBACKEND=Agg timeout 300 /venv/bin/python $(readlink -f $d/demo.py) $W/repo >/dev/null 2>&1 ); echo "$p demo with patch: exit $?"
+      DEMO=$(readlink -f $d/demo.py)
+      ( cd $W/repo && PYTHONPATH=$W/repo/py MPLBACKEND=Agg timeout 300 /venv/bin/python $DEMO $W/repo >/dev/null 2>&1 ); echo "$p demo with patch: exit $?"
       echo "$p baseline: $(tools/baseline.sh $W/repo | head -1)"
     fi
     for id in $ids; do
